@@ -139,7 +139,15 @@ type RefCfg struct {
 	IsInLazy                   bool            // `e is T in r`: do not let an error in r escape unless the `is` test can succeed
 	Taint                      map[string]bool // op name -> treat operands that merely CONTAIN an unknown as unknown
 	TaintAll                   bool            // the same for every operator (the complete repair of the tainted-container defect)
+	// IgnTaint is a CANDIDATE repair, not applied to the code (never part of BaseCfgs): a record / set that merely contains
+	// an ignore marker is "ignored" for every consumer other than attribute access / `has` (finding class
+	// nested-ignore-consumed-whole)
+	IgnTaint bool
 }
+
+// NestedIgnoreClass names the open finding: an operator other than `.` / `has` consumes (or a residual embeds) a
+// record / set VALUE that merely contains an ignore marker as if it were fully known.
+const NestedIgnoreClass = "nested-ignore-consumed-whole"
 
 func (c RefCfg) String() string {
 	var xs []string
@@ -164,6 +172,9 @@ func (c RefCfg) String() string {
 	sort.Strings(ts)
 	if c.TaintAll {
 		ts = append(ts, "tainted-*")
+	}
+	if c.IgnTaint {
+		ts = append(ts, NestedIgnoreClass)
 	}
 	return fmt.Sprint(append(xs, ts...))
 }
@@ -226,6 +237,12 @@ func (r *Ref) try(orig []ast.IsNode, op string, mk func([]ast.IsNode) ast.IsNode
 			continue
 		} else if p.k != pkOK {
 			return p
+		}
+		if v, isVal := p.n.(ast.NodeValue); isVal && !allowTainted && !IsIgn(v.Value) && ContainsIgn(v.Value) {
+			r.event(NestedIgnoreClass)
+			if r.Cfg.IgnTaint {
+				return pres{k: pkIgn}
+			}
 		}
 		if v, isVal := p.n.(ast.NodeValue); isVal && !allowTainted && ContainsVar(v.Value) {
 			cls := "tainted-" + containerKind(v.Value) + "-" + op
@@ -425,6 +442,19 @@ func (r *Ref) embedded(n ast.IsNode, orig ast.IsNode, where string) ast.IsNode {
 	return n
 }
 
+// ignEmbedded: a literal that merely contains an ignore marker is about to be embedded in a residual (candidate repair:
+// the construct is "ignored").
+func (r *Ref) ignEmbedded(p pres) bool {
+	if p.k != pkOK {
+		return false
+	}
+	if v, isVal := p.n.(ast.NodeValue); isVal && !IsIgn(v.Value) && ContainsIgn(v.Value) {
+		r.event(NestedIgnoreClass)
+		return r.Cfg.IgnTaint
+	}
+	return false
+}
+
 // stale handles "(node, errVariable)" reaching partialAnd/Or/IfThenElse: the code keeps `node`; the repair keeps `orig`.
 func (r *Ref) stale(p pres, orig ast.IsNode, cls string, repaired bool) ast.IsNode {
 	if !sameNode(p.n, orig) {
@@ -453,6 +483,9 @@ func (r *Ref) ite(v ast.NodeTypeIfThenElse) pres {
 	}
 	t := r.partial(v.Then)
 	thenNode := t.n
+	if r.ignEmbedded(t) {
+		return pres{k: pkIgn}
+	}
 	if t.k == pkIgn {
 		return t
 	} else if t.k == pkErr {
@@ -464,6 +497,9 @@ func (r *Ref) ite(v ast.NodeTypeIfThenElse) pres {
 	}
 	e := r.partial(v.Else)
 	elseNode := e.n
+	if r.ignEmbedded(e) {
+		return pres{k: pkIgn}
+	}
 	if e.k == pkIgn {
 		return e
 	} else if e.k == pkErr {
@@ -493,6 +529,9 @@ func (r *Ref) and(v ast.NodeTypeAnd) pres {
 	}
 	rr := r.partial(v.Right)
 	right := rr.n
+	if r.ignEmbedded(rr) {
+		return pres{k: pkIgn}
+	}
 	if rr.k == pkIgn {
 		return rr
 	} else if rr.k == pkErr {
@@ -522,6 +561,9 @@ func (r *Ref) or(v ast.NodeTypeOr) pres {
 	}
 	rr := r.partial(v.Right)
 	right := rr.n
+	if r.ignEmbedded(rr) {
+		return pres{k: pkIgn}
+	}
 	if rr.k == pkIgn {
 		return rr
 	} else if rr.k == pkErr {
@@ -580,6 +622,9 @@ func (r *Ref) isIn(v ast.NodeTypeIsIn) pres {
 	}
 	rr := r.partial(v.Entity)
 	right := rr.n
+	if r.ignEmbedded(rr) {
+		return pres{k: pkIgn}
+	}
 	if rr.k == pkIgn {
 		return rr
 	} else if rr.k == pkErr {
@@ -802,6 +847,8 @@ func (c RefCfg) With(names []string) RefCfg {
 			out.StaleIf = true
 		case "isin-eager-rhs-error":
 			out.IsInLazy = true
+		case NestedIgnoreClass:
+			out.IgnTaint = true
 		default:
 			out.Taint[n] = true
 		}
